@@ -2,10 +2,10 @@
    bool, option, unit, list, prod, sumbool are mapped to OCaml's native types;
    Z, N, positive, nat, string, ascii stay the extracted inductives. *)
 From Coq Require Import Extraction ExtrOcamlBasic.
-From Hub Require Import Base.Prelude Base.Arith Model.Types Model.Keeper Model.Handlers Model.Hooks Model.Step Model.Dump Model.Genesis.
+From Hub Require Import Base.Prelude Base.Arith Model.Types Model.Keeper Model.Handlers Model.Hooks Model.Step Model.Domain Model.Dump Model.Genesis.
 Extraction Language OCaml.
 Set Warnings "-extraction-opaque-accessed".
-Extraction "hub_model.ml" genesis_roundtrip step init run empty_state amount_for_bytes proportion ceil_to1 validate_basic
+Extraction "hub_model.ml" genesis_roundtrip step init run empty_state wf_op_c03_b wf_genesis_b amount_for_bytes proportion ceil_to1 validate_basic
   d_bank d_supply d_deposits d_prov_act d_prov_inact d_node_act d_node_inact d_plan_act d_plan_inact
   d_subs d_allocs d_payouts d_sessions d_swaps d_inflations d_node_q d_node_plan d_plan_prov d_sub_q d_sub_acc
   d_sub_node d_sub_plan d_pay_q d_pay_acc d_pay_node d_pay_acc_node d_sess_q d_sess_acc d_sess_node d_sess_sub
